@@ -467,11 +467,25 @@ func c13Run(t *rapid.T) {
 		}
 	}
 
+	// templates registered with CacheSet under a NAME (not their text): while the cache is on, rendering the name
+	// renders the registered template; nothing but an explicit reset un-registers it
+	aliases := map[string]int{}
+	crowd := func(n int, tag string) {
+		was := plush.CacheEnabled
+		plush.CacheEnabled = true
+		for x := 0; x < n; x++ {
+			txt := fmt.Sprintf("%s %d <%%= %d %%>", tag, x, x)
+			if out, err := safeRender(txt, plush.NewContext()); err != nil || out != fmt.Sprintf("%s %d %d", tag, x, x) {
+				violate(t, "C13", "same-template-same-data-same-result", "c13:result-differs:filler", det(fmt.Sprintf("filler template %q rendered %q, %v", txt, out, err)))
+			}
+		}
+		plush.CacheEnabled = was
+	}
 	nops := rapid.IntRange(3, 40).Draw(t, "nops")
 	for op := 0; op < nops; op++ {
 		i := uni(t, "prog", nprog)
 		j := uni(t, "variant", nvar)
-		kind := uni(t, "op", 17)
+		kind := uni(t, "op", 18)
 		switch kind {
 		case 0:
 			cacheOn = !cacheOn
@@ -481,7 +495,7 @@ func c13Run(t *rapid.T) {
 		case 1:
 			if uni(t, "crowd", 3) == 0 {
 				// crowd the cache with many other templates (bounded caches, eviction)
-				n := []int{10, 20, 70, 300}[uni(t, "crowdn", 4)]
+				n := []int{10, 20, 70, 300, 1100}[uni(t, "crowdn", 5)]
 				was := plush.CacheEnabled
 				plush.CacheEnabled = true
 				for x := 0; x < n; x++ {
@@ -496,6 +510,7 @@ func c13Run(t *rapid.T) {
 				break
 			}
 			plush.VerifResetCache()
+			aliases = map[string]int{}
 			hist = append(hist, "reset cache (cold)")
 			count("c13_op_resetcache", 1)
 		case 2:
@@ -722,6 +737,45 @@ func c13Run(t *rapid.T) {
 			count("c13_op_page_layout", 1)
 			if a != b {
 				violate(t, "C13", "same-template-same-data-same-result", "c13:result-differs:page+layout", det(fmt.Sprintf("page+layout of program %d with data variant %d gave\n  %s\nand then\n  %s", i, j, a, b)))
+			}
+		case 16:
+			name := fmt.Sprintf("pages/prog%d.plush.html", i)
+			if _, ok := aliases[name]; !ok || uni(t, "reregister", 4) == 0 {
+				tm, err := simNewTemplate(progs[i].text)
+				if err != nil {
+					break
+				}
+				plush.CacheSet(name, tm)
+				track(tm, i, "CacheSet")
+				aliases[name] = i
+				hist = append(hist, fmt.Sprintf("CacheSet(%q, NewTemplate(prog %d))", name, i))
+				count("c13_op_cacheset_alias", 1)
+				if uni(t, "aliascrowd", 5) == 0 {
+					n := []int{40, 1100, 2300}[uni(t, "aliascrowdn", 3)]
+					crowd(n, "other")
+					hist = append(hist, fmt.Sprintf("render %d other distinct templates with the cache on", n))
+					count("c13_op_crowd_cache", 1)
+				}
+			}
+			// every registered name, not only the newest
+			names := make([]string, 0, len(aliases))
+			for n := range aliases {
+				names = append(names, n)
+			}
+			sort.Strings(names)
+			name = names[uni(t, "alias", len(names))]
+			ai := aliases[name]
+			rt := newRT(ai, j)
+			hist = append(hist, fmt.Sprintf("Render(%q, data %d) [cache %v]", name, j, cacheOn))
+			out, err := safeRender(name, plush.NewContextWith(rt.contextData()))
+			if cacheOn {
+				compare(ai, j, "Render(registered name)", out, err, rt)
+				count("c13_op_render_alias_cache_on", 1)
+			} else if err != nil || out != name {
+				// with the cache off the name is just a text
+				violate(t, "C13", "same-template-same-data-same-result", "c13:result-differs:alias-cache-off", det(fmt.Sprintf("Render(%q) with the cache off gave %q, %v; the text itself was expected", name, out, err)))
+			} else {
+				count("c13_op_render_alias_cache_off", 1)
 			}
 		case 15:
 			// the same context object used for two executions in a row (what the first
